@@ -32,6 +32,70 @@ pub fn yof(d: &NaiveDate) -> i64 {
     h.0
 }
 
+/// the single `write_i32` of `IsoWeek`'s derived `Hash`: the packed `ywf`
+pub fn ywf(w: &chrono::IsoWeek) -> i64 {
+    let mut h = Rec::default();
+    w.hash(&mut h);
+    h.0
+}
+/// independent year flags: bit 3 = common year, low bits = weekday (Mon = 0, written 7) of 31 December
+/// of the previous year
+fn ref_flags(y: i64) -> i64 {
+    let w = (day_num(y, 1, 0) + 6).rem_euclid(7);
+    (if is_leap(y) { 0 } else { 8 }) + if w == 0 { 7 } else { w }
+}
+/// `di.isoweek` / `di.zero`: the packed ISO week with its three views and the 0-based twins of a date
+/// (correspondence), judged directly against the Thursday rule and the 1-based accessors
+fn check_iso_views(c: &mut Ctx, d: &NaiveDate) {
+    let y = yof(d);
+    let r = guard(|| {
+        let iw = d.iso_week();
+        (ywf(&iw), iw.year() as i64, iw.week() as i64, iw.week0() as i64)
+    });
+    c.op(&format!("di.isoweek {y}"), &match r { Ok((a, b, w, w0)) => format!("{a} {b} {w} {w0}"), Err(()) => "panic".into() });
+    match r {
+        Ok((a, iy, w, w0)) => {
+            // the Thursday of the date's Monday-based week is day `ot` of calendar year `ty`
+            let n = d.num_days_from_ce() as i64;
+            let thu = n - (n + 6).rem_euclid(7) + 3;
+            let mut ty = d.year() as i64;
+            if thu <= day_num(ty, 1, 0) {
+                ty -= 1;
+            } else if thu > day_num(ty + 1, 1, 0) {
+                ty += 1;
+            }
+            let ot = thu - day_num(ty, 1, 0);
+            if iy != ty || w != (ot - 1) / 7 + 1 || w0 != (ot - 1) / 7 {
+                c.fail("iso_week year/week/week0 is not the year and week of the week's Thursday", &format!("{} (Thursday = day {ot} of year {ty}; got {iy} {w} {w0})", show_obs(d)));
+            }
+            if a != iy * 1024 + w * 16 + ref_flags(iy) {
+                c.fail("the packed IsoWeek is not year<<10 | week<<4 | flags of the ISO year", &format!("{}: ywf {a}", show_obs(d)));
+            }
+        }
+        Err(()) => c.fail("iso_week or an IsoWeek view panicked", &gs(|| show_obs(d), |s| s)),
+    }
+    let z = guard(|| (d.month0(), d.day0(), d.ordinal0()));
+    let one = |r: Result<u32, ()>| match r { Ok(v) => v.to_string(), Err(()) => "panic".into() };
+    c.op(
+        &format!("di.zero {y}"),
+        &format!("{} {} {}", one(guard(|| d.month0())), one(guard(|| d.day0())), one(guard(|| d.ordinal0()))),
+    );
+    match z {
+        Ok((m0, d0, o0)) => {
+            // judged against the independent calendar: month/day from the ordinal by month lengths
+            let (yy, mut rest, mut m) = (d.year() as i64, d.ordinal() as i64, 1i64);
+            while m < 12 && rest > month_len(yy, m) {
+                rest -= month_len(yy, m);
+                m += 1;
+            }
+            if (m0 as i64, d0 as i64, o0 as i64) != (m - 1, rest - 1, d.ordinal() as i64 - 1) {
+                c.fail("month0/day0/ordinal0 are not the calendar month, day, ordinal minus one", &format!("{} -> {m0} {d0} {o0}", show_obs(d)));
+            }
+        }
+        Err(()) => c.fail("a 0-based accessor panicked", &gs(|| show_obs(d), |s| s)),
+    }
+}
+
 pub fn obs(d: &NaiveDate) -> [i64; 10] {
     let iw = d.iso_week();
     [
@@ -408,6 +472,7 @@ pub fn run(c: &mut Ctx) {
         if days != i32::MIN {
             c.op(&format!("d.add {y} {days}"), &match r { Ok(o) => syof(o), Err(()) => "panic".into() });
         }
+        check_iso_views(c, &d);
         // direct oracles
         if let Err(e) = derived_views(&d) {
             c.fail("a derived view (0-based twin, trait copy, year_ce, own-field constructor) disagrees", &e);
@@ -470,6 +535,8 @@ pub fn run(c: &mut Ctx) {
             if (q.cmp(&d) as i32) != ((q.num_days_from_ce().cmp(&d.num_days_from_ce())) as i32) {
                 c.fail("date order differs from day-number order", &format!("{} vs {}", show_obs(&q), show_obs(&d)));
             }
+            // the derived `Ord` of `IsoWeek`, against the model's order of the packed `ywf`
+            c.op(&format!("di.isocmp {a} {b}"), &gs(|| q.iso_week().cmp(&d.iso_week()) as i32, |x| x.to_string()));
             if (q.iso_week().cmp(&d.iso_week()) as i32) * ((q.cmp(&d)) as i32) < 0 {
                 c.fail("ISO weeks compare against chronological order", &format!("{} vs {}", show_obs(&q), show_obs(&d)));
             }
